@@ -13,7 +13,7 @@ func init() { extractors = append(extractors, extractLru) }
 // mutex is released by defer; and which list ends are used for insertion,
 // touch and eviction.
 func extractLru() {
-	l := newLean("Lru")
+	l := newLean("Lru", "Neutrino.Model.Lru")
 	defer l.write()
 	f := parse("cache/lru/lru.go")
 	inside := func(fn string, lock, unlock string) (bool, []string) {
@@ -85,6 +85,46 @@ func extractLru() {
 			}
 		}
 	}
+	// The eviction loop's condition, translated as an expression over uint64 (what it
+	// COMPUTES, whichever way it is written): C16_evict_condition proves that, with the
+	// wrap-around of the machine word, it holds exactly when the free space is smaller than
+	// what is needed, for all values the invariant allows.
+	cond := ""
+	if ev != nil {
+		recv, needed := "", ""
+		if ev.Recv != nil && len(ev.Recv.List) == 1 && len(ev.Recv.List[0].Names) == 1 {
+			recv = ev.Recv.List[0].Names[0].Name
+		}
+		if ps := ev.Type.Params.List; len(ps) == 1 && len(ps[0].Names) == 1 && src(ps[0].Type) == "uint64" {
+			needed = ps[0].Names[0].Name
+		}
+		var loops []*ast.ForStmt
+		ast.Inspect(ev.Body, func(n ast.Node) bool {
+			if _, ok := n.(*ast.FuncLit); ok {
+				return false
+			}
+			if fs, ok := n.(*ast.ForStmt); ok {
+				loops = append(loops, fs)
+			}
+			return true
+		})
+		switch {
+		case recv == "" || needed == "":
+			fail("cache/lru/lru.go: evict(needed uint64) with a named receiver")
+		case len(loops) != 1 || loops[0].Cond == nil || loops[0].Init != nil || loops[0].Post != nil:
+			fail("cache/lru/lru.go: evict has exactly one `for <condition>` loop")
+		default:
+			var ok bool
+			if cond, ok = lruCmp(loops[0].Cond, recv, needed); !ok {
+				fail("cache/lru/lru.go: evict's loop condition `%s` is a comparison of +/- expressions over %s.capacity, %s.size and %s",
+					src(loops[0].Cond), recv, recv, needed)
+			}
+		}
+	}
+	if cond == "" {
+		cond = ".lt .cap .cap"
+	}
+	l.def("evictCond", "Neutrino.Lru.CmpExpr", cond, "the condition under which evict() goes on evicting, as a uint64 expression")
 	l.def("evictVictim", "String", "\""+victim+"\"", "which end of the recency list evict() takes its victim from")
 	insert, touch := "", ""
 	if fd := funcDecl(f, "Cache", "Put"); fd != nil {
@@ -162,4 +202,55 @@ func extractLru() {
 	shape["indexType"], shape["rangeSafe"] = indexType, rangeLocked || (indexConcurrent && rangeOnlyIndex)
 	shape["evictVictim"], shape["putInsert"], shape["getTouch"], shape["evictCallers"] = victim, insert, touch, evictCallers
 	facts["lru"] = shape
+}
+
+// lruU64 translates a uint64 expression built from <recv>.capacity, <recv>.size,
+// the parameter `needed`, + and - into a Neutrino.Lru.U64Expr term.
+func lruU64(e ast.Expr, recv, needed string) (string, bool) {
+	switch x := e.(type) {
+	case *ast.ParenExpr:
+		return lruU64(x.X, recv, needed)
+	case *ast.Ident:
+		if x.Name == needed {
+			return ".needed", true
+		}
+	case *ast.SelectorExpr:
+		if id, ok := x.X.(*ast.Ident); ok && id.Name == recv {
+			switch x.Sel.Name {
+			case "capacity":
+				return ".cap", true
+			case "size":
+				return ".size", true
+			}
+		}
+	case *ast.BinaryExpr:
+		a, ok1 := lruU64(x.X, recv, needed)
+		b, ok2 := lruU64(x.Y, recv, needed)
+		if ok1 && ok2 {
+			switch x.Op.String() {
+			case "+":
+				return "(.add " + a + " " + b + ")", true
+			case "-":
+				return "(.sub " + a + " " + b + ")", true
+			}
+		}
+	}
+	return "", false
+}
+
+func lruCmp(e ast.Expr, recv, needed string) (string, bool) {
+	if p, ok := e.(*ast.ParenExpr); ok {
+		return lruCmp(p.X, recv, needed)
+	}
+	b, ok := e.(*ast.BinaryExpr)
+	if !ok {
+		return "", false
+	}
+	con := map[string]string{"<": ".lt", "<=": ".le", ">": ".gt", ">=": ".ge"}[b.Op.String()]
+	x, ok1 := lruU64(b.X, recv, needed)
+	y, ok2 := lruU64(b.Y, recv, needed)
+	if con == "" || !ok1 || !ok2 {
+		return "", false
+	}
+	return con + " " + x + " " + y, true
 }
